@@ -236,6 +236,27 @@ def oracle_files(ck, rng):
                 if fl:
                     ck.violation(what=f"{fmt} written after in-place rotate/translate of an object that had been written before: {fl}", inp={"format": fmt, "n": n},
                                  key={"site": "roundtrip-after-inplace", "format": fmt}, oracle="save_after_inplace_change", measured=fl)
+        # ---- molecules built from quaternions of any length: the saved object and the reloaded one describe the same orientations ----
+        for it3 in range(2 if ck.tier == "quick" else 10):
+            n = int(rng.integers(1, 5))
+            rq = Rotation.random(n, random_state=int(rng.integers(0, 2**31)))
+            mq = Molecules.from_quat(rng.normal(size=(n, 3)) * 10, rq.as_quat() * float(rng.choice([2.0, 0.4, 1.0 + 2 ** -10])), features={"i": list(range(n))})
+            for fmt in ("df", "parquet", "csv"):
+                ck.oracle_count("nonunit_quaternion_roundtrip", 1, 1)
+                try:
+                    if fmt == "df":
+                        back = Molecules.from_dataframe(mq.to_dataframe())
+                    elif fmt == "parquet":
+                        f = os.path.join(d, "q.parquet"); mq.to_file(f); back = Molecules.from_file(f)
+                    else:
+                        f = os.path.join(d, "q.csv"); mq.to_csv(f, float_precision=6); back = Molecules.from_file(f)
+                    merr = float(np.abs(back.matrix() - mq.matrix()).max()); terr = float(np.abs(mq.matrix() - rq.as_matrix()).max())
+                    fl = None if merr <= 1e-4 and terr <= 1e-5 else f"orientation matrices: saved object vs reloaded {merr:.3g}, saved object vs the rotation the quaternion denotes {terr:.3g}"
+                except Exception as e:  # noqa
+                    fl = f"raised {type(e).__name__}: {e}"
+                if fl:
+                    ck.violation(what=f"{fmt} round trip of molecules built with from_quat from quaternions that are not of unit length: {fl}", inp={"format": fmt, "n": n},
+                                 key={"site": "roundtrip-nonunit-quat", "format": fmt}, oracle="nonunit_quaternion_roundtrip", measured=fl)
         # ---- zero molecules with feature columns: columns and schema survive every format ----
         empty_feats = pl.DataFrame({"i": pl.Series("i", [], dtype=pl.Int64), "f": pl.Series("f", [], dtype=pl.Float64), "s": pl.Series("s", [], dtype=pl.Utf8)})
         full = Molecules(np.arange(6, dtype=float).reshape(2, 3), features={"i": [1, 2], "f": [0.5, 1.5], "s": ["a", "b"]})
